@@ -2,15 +2,24 @@
 C16 — functions accept a column name wherever PySpark does, with the same meaning.
 
 proof      : lean/SqlframeModel/Props/C16.lean — C16_lift (every name, every context) + C16_table_check
-             (`decide +kernel` over the regenerated table Gen.cells) => C16_table_partial / C16_partial
-tie        : Gen/Functions.lean = static decisions (tools/gen_c16.py, ast) + the cell table traced on every
-             run from the real functions of every engine (tools/props/c16_trace.py, a DYNAMIC translator)
-search     : the direct comparison  sql(f(..,'name',..)) == sql(f(..,col('name'),..))  for the WHOLE table on
-             every engine (exhaustive over the finite part; doubles as the check of the tracer), for
-             several names, against the Lean driver's prediction for the same cells
+             (`decide +kernel` over the regenerated table Gen.cells) => C16_table_partial / C16_partial;
+             names and collections: C16_struct_names, C16_nameSites_forms, C16_unpack_listForm, C16_cols_listForm,
+             C16_struct_call, C16_sites_check, C16_autoAlias, C16_named_partial
+tie        : Gen/Functions.lean = static decisions (tools/gen_c16.py, ast: coercion routes, struct's field-name source,
+             every naming site, every varargs-or-one-list unpacking site, the automatic alias) + the cell table traced on
+             every run from the real functions of every engine (tools/props/c16_trace.py, a DYNAMIC translator);
+             the hand-written naming / unpacking model is compared with the running code through the driver
+search     : the direct comparison  f(..,'name',..)  vs  f(..,col('name'),..)  for the WHOLE table on every engine
+             (exhaustive over the finite part; doubles as the check of the tracer): SQL text, the result's name, the whole
+             tree (quoting flags, display names); names that need quoting (qualified, dot / space inside backquotes,
+             upper case, leading digit, reserved word, operator characters); argument variants (other arguments as typed
+             values / by name / as Columns / as Python numbers, each optional parameter left out); ONE list argument
+             against the varargs call; each engine's second half in a process used by another engine before;
+             and EXECUTED on a DuckDB session (tools/props/c16_exec.py): output column names, nested field names, values
 oracle     : the table of PySpark ColumnOrName positions is PySpark 3.5.9's own
              (tools/oracle/pyspark_colname_positions.json: ast of pyspark/sql/functions.py, each position
-             confirmed on a live JVM; positions where PySpark itself makes a literal are excluded)
+             confirmed on a live JVM; positions where PySpark itself makes a literal are excluded);
+             names of struct fields and the list forms: tools/oracle/c16_pyspark_naming.json (live JVM; thorough: again)
 """
 from __future__ import annotations
 
@@ -28,6 +37,7 @@ HERE = os.path.dirname(os.path.abspath(__file__))
 sys.path.insert(0, HERE)
 
 import c16_trace as T  # noqa: E402
+import c16_exec as X  # noqa: E402
 
 ID = "C16"
 LEVEL = "proof"
@@ -35,7 +45,15 @@ MODULES = ["SqlframeModel.Props.C16"]
 GEN = ["Functions"]
 SOURCES = ["SqlframeModel/Props/C16.lean", "SqlframeModel/Impl/C16.lean"]
 
-FIXED_NAMES = ["c", "a-b", "Col_1"]
+# names every run uses.  The first three are also run with EVERY argument variant (other arguments as names / Columns /
+# Python numbers, one optional parameter left out); the others with the two basic variants (required arguments only / all).
+#   c        one character, plain            a-b     not an identifier: reads as an expression if it is ever parsed as SQL
+#   s.x      qualified (struct field / alias-qualified column): the column's own name is the LAST part
+#   Col_1    upper-case letters (the session's dialect folds unquoted names)
+#   `a.b`    quoted by the caller, a dot inside the name       select   a reserved word       1x   leading digit
+FIXED_NAMES = ["c", "a-b", "s.x", "Col_1", "`a.b`", "select", "1x"]
+ALL_VARIANT_NAMES = FIXED_NAMES[:3]
+RESERVED = ["select", "from", "order", "group", "table", "case", "end", "null", "true", "in", "as", "by"]
 
 
 def names_for(ctx: Ctx) -> t.List[str]:
@@ -50,11 +68,33 @@ def names_for(ctx: Ctx) -> t.List[str]:
     def odd() -> str:
         return "n" + rng.choice(letters) + rng.choice([" ", "-", "+", "/", " - ", "%"]) + rng.choice(letters) + rng.choice(letters)
 
-    n_id, n_odd = (4, 4) if ctx.thorough else (1, 1)
+    def part() -> str:
+        k = rng.randint(0, 5)
+        w = rng.choice(letters) + "".join(rng.choice(letters) for _ in range(rng.randint(0, 3)))
+        if k == 0:
+            return w
+        if k == 1:
+            return w.capitalize()
+        if k == 2:
+            return "`" + w + rng.choice([" ", ".", "-", "$"]) + rng.choice(letters) + "`"
+        if k == 3:
+            return "`" + w.upper() + "`"
+        if k == 4:
+            return rng.choice("123456789") + w
+        return "`" + rng.choice(RESERVED) + "`"
+
+    def qualified() -> str:
+        return ".".join(part() for _ in range(rng.choice([1, 2, 2, 2, 3])))
+
+    n_id, n_odd, n_q = (4, 4, 6) if ctx.thorough else (1, 1, 1)
     for _ in range(n_id):
         out.append(ident())
     for _ in range(n_odd):
         out.append(odd())
+    for _ in range(n_q):
+        out.append(qualified())
+    if ctx.thorough:
+        out += ["`my col`", "t.Ab", "`T`.`a b`", "a.b.c", "order", "x"]
     seen = set()
     return [n for n in out if not (n in seen or seen.add(n))]
 
@@ -74,31 +114,84 @@ def _sql_of(res: t.Any) -> str:
     return " ; ".join(parts)
 
 
-def compare_cell(F: t.Any, cell: dict, name: str) -> dict:
-    """both forms, both argument variants; `equal` = every usable variant gives the same SQL text;
+def _dump(e: t.Any) -> t.Any:
+    """the expression tree with every argument that the SQL text may not show (quoting flags, `_meta` display names)"""
+    from sqlglot import exp
+
+    if isinstance(e, exp.Expression):
+        args = {k: _dump(v) for k, v in sorted(e.args.items()) if v is not None and v is not False and v != []}
+        meta = getattr(e, "_meta", None)
+        if meta:
+            args["_meta"] = {str(k): repr(v) for k, v in sorted(meta.items())}
+        return [type(e).__name__, args]
+    if isinstance(e, (list, tuple)):
+        return [_dump(x) for x in e]
+    return repr(e)
+
+
+def _observe(res: t.Any) -> t.Dict[str, str]:
+    """what the check compares for one call: the SQL text, the whole tree, and the NAME the result goes by
+    (its alias or column name, which a DataFrame takes as the name of the output column)"""
+    from sqlframe.base.column import Column
+
+    items = res if isinstance(res, (list, tuple)) else [res]
+    trees, names = [], []
+    for r in items:
+        if isinstance(r, Column):
+            trees.append(_dump(r.expression))
+            try:
+                names.append(r.alias_or_name)
+            except Exception as e:  # noqa
+                names.append(f"<{type(e).__name__}>")
+        else:
+            trees.append(repr(r))
+            names.append(None)
+    return {"sql": _sql_of(res), "tree": json.dumps(trees, sort_keys=True, default=str), "name": json.dumps(names)}
+
+
+OBSERVABLES = ("sql", "name", "tree")
+
+
+def compare_cell(F: t.Any, cell: dict, name: str, every_variant: bool = True) -> dict:
+    """both forms under every distinct argument variant; `equal` = every usable variant gives the same SQL text, the
+    same result name and the same tree; for a list form (`sub` 2 / 3) the reference is PySpark's meaning of it, the
+    varargs call with col(name), and the list holding col(name) is compared as well;
     `meets` (informational only: format translation can hide the text) = equal, and the col(name) form's
     tree does not carry the name as a string literal"""
     out: dict = {"usable": 0, "equal": True, "meets": True, "variants": []}
     if cell.get("tgt") is None:
         return {"usable": 0, "equal": False, "meets": False, "variants": [{"variant": "-", "str_error": "no such parameter in sqlframe's signature"}]}
-    for variant in ("min", "full"):
+    ref = T.reference_cell(cell)
+    for variant in T.variants_for(F, cell):
+        if not every_variant and variant not in T.VARIANTS_BASE:
+            continue
         with warnings.catch_warnings():
             warnings.simplefilter("ignore")
             try:
-                col_res = T.call_cell(F, cell, F.col(name), variant)
-                col_sql = _sql_of(col_res)
+                col_res = T.call_cell(F, ref, F.col(name), variant)
+                col_obs = _observe(col_res)
                 col_outcome = T.tree_outcome(col_res, name)
             except Exception as e:  # noqa
                 out["variants"].append({"variant": variant, "skipped": f"Column form fails: {type(e).__name__}: {str(e)[:80]}"})
                 continue
             out["usable"] += 1
-            v: dict = {"variant": variant, "col_sql": col_sql, "col_form_mentions_name_as": col_outcome}
-            try:
-                v["str_sql"] = _sql_of(T.call_cell(F, cell, name, variant))
-                v["equal"] = v["str_sql"] == col_sql
-            except Exception as e:  # noqa
-                v["str_error"] = f"{type(e).__name__}: {str(e)[:160]}"
-                v["equal"] = False
+            v: dict = {"variant": variant, "col_sql": col_obs["sql"], "col_name": col_obs["name"], "col_form_mentions_name_as": col_outcome}
+            forms = [("str", name)] + ([("listcol", F.col(name))] if ref is not cell else [])
+            v["equal"] = True
+            for label, value in forms:
+                try:
+                    obs = _observe(T.call_cell(F, cell, value, variant))
+                    v[f"{label}_sql"] = obs["sql"]
+                    v[f"{label}_name"] = obs["name"]
+                    diff = [o for o in OBSERVABLES if obs[o] != col_obs[o]]
+                    if diff:
+                        v["equal"] = False
+                        v.setdefault("differs_in", {})[label] = diff
+                        if diff == ["tree"]:
+                            v[f"{label}_tree"], v["col_tree"] = obs["tree"], col_obs["tree"]
+                except Exception as e:  # noqa
+                    v[f"{label}_error"] = f"{type(e).__name__}: {str(e)[:160]}"
+                    v["equal"] = False
             if not v["equal"]:
                 out["equal"] = False
             if not v["equal"] or col_outcome in ("literal", "both"):
@@ -107,35 +200,105 @@ def compare_cell(F: t.Any, cell: dict, name: str) -> dict:
     return out
 
 
-def _engine_job(arg: t.Tuple[str, t.List[str]]) -> t.List[dict]:
-    engine, names = arg
+def _cmp_job(segments: t.List[t.Tuple[str, t.List[str]]]) -> t.List[dict]:
+    """one process, several (engine, names) segments one after the other: the second segment runs under another
+    engine's session in a process that has already made the same name-only calls under the first engine (state that a
+    function keeps from one call to the next - a memo, a cached helper - shows up as a difference)"""
     import logging
 
     logging.disable(logging.WARNING)
-    T.make_session(engine)
-    F = T.functions_module(engine)
     rows = []
-    for cell in T.cells_for(engine):
-        for n in names:
-            r = compare_cell(F, cell, n)
-            rows.append({"f": cell["f"], "e": engine, "pos": cell["pos"], "sub": cell["sub"], "pname": cell["pname"], "name": n, **r})
+    for seg, (engine, names) in enumerate(segments):
+        T.make_session(engine)
+        F = T.functions_module(engine)
+        for cell in T.cells_for(engine):
+            for n in names:
+                r = compare_cell(F, cell, n, every_variant=n in ALL_VARIANT_NAMES)
+                rows.append({"f": cell["f"], "e": engine, "pos": cell["pos"], "sub": cell["sub"], "pname": cell["pname"], "name": n, "segment": seg, **r})
     return rows
 
 
-def direct_comparison(names: t.List[str]) -> t.List[dict]:
+def _trace_job(engine: str) -> t.List[dict]:
+    import logging
+
+    logging.disable(logging.WARNING)
+    return T.trace_engine(engine)
+
+
+def _job(job: t.Tuple) -> t.Tuple[str, t.Any]:
+    kind = job[0]
+    try:
+        if kind == "cmp":
+            return kind, _cmp_job(job[1])
+        if kind == "trace":
+            return kind, _trace_job(job[1])
+        if kind == "exec":
+            return kind, X.exec_job(job[1])
+    except Exception as e:  # noqa
+        import traceback
+
+        return "error", f"{kind} {job[1] if kind != 'cmp' else [s[0] for s in job[1]]}: {type(e).__name__}: {e}\n{traceback.format_exc()[-800:]}"
+    return "error", f"unknown job {kind}"
+
+
+# engines ordered so that neighbours differ in size (a job = one engine's first half of the names, then the NEXT
+# engine's second half)
+ENGINE_RING = ["standalone", "duckdb", "spark", "postgres", "databricks", "bigquery", "redshift", "snowflake"]
+
+
+def plan_jobs(names: t.List[str], exec_refs: t.List[str], exec_shards: int, exec_full: bool) -> t.List[t.Tuple]:
+    assert sorted(ENGINE_RING) == sorted(T.ENGINES)
+    half = (len(names) + 1) // 2
+    first, second = names[:half], names[half:]
+    # the second segment repeats the first name: the identical name-only call, now under another engine in a used process
+    second = [names[0]] + [n for n in second if n != names[0]]
+    jobs: t.List[t.Tuple] = []
+    for i, e in enumerate(ENGINE_RING):
+        jobs.append(("cmp", [(e, first), (ENGINE_RING[(i + 1) % len(ENGINE_RING)], second)]))
+    for k in range(exec_shards):
+        jobs.append(("exec", (k, exec_shards, exec_refs, exec_full)))
+    for e in T.ENGINES:
+        jobs.append(("trace", e))
+    return jobs
+
+
+def run_jobs(jobs: t.List[t.Tuple]) -> t.Tuple[t.List[dict], t.List[dict], t.List[dict], t.List[str]]:
+    """(comparison rows, traced rows, exec results, errors); every job in a process of its own (the tracer patches classes)"""
     import multiprocessing as mp
 
-    jobs = [(e, names) for e in T.ENGINES]
+    for e in T.ENGINES:  # import before forking (no connection is opened here)
+        T.functions_module(e)
     workers = min(int(os.environ.get("VERIF_WORKERS", "8")), os.cpu_count() or 1, len(jobs))
     if workers <= 1:
-        res = [_engine_job(j) for j in jobs]
+        res = [_job(j) for j in jobs]
     else:
-        with mp.get_context("fork").Pool(workers) as pool:
-            res = pool.map(_engine_job, jobs, chunksize=1)
-    return [r for rows in res for r in rows]
+        with mp.get_context("fork").Pool(workers, maxtasksperchild=1) as pool:
+            res = pool.map(_job, jobs, chunksize=1)
+    rows: t.List[dict] = []
+    traced: t.List[dict] = []
+    execs: t.List[dict] = []
+    errors: t.List[str] = []
+    for kind, r in res:
+        if kind == "cmp":
+            rows.extend(r)
+        elif kind == "trace":
+            traced.extend(r)
+        elif kind == "exec":
+            execs.append(r)
+        else:
+            errors.append(str(r))
+    return rows, traced, execs, errors
 
 
-def one_cell(function: str, engine: str, position: int, sub: int, name: str) -> t.Optional[dict]:
+def one_cell(function: str, engine: str, position: int, sub: int, name: str, history: t.Optional[t.List] = None) -> t.Optional[dict]:
+    """one cell, every argument variant; `history` = [[engine, names], …] the same cell is run under first (same process)"""
+    for h_engine, h_names in history or []:
+        T.make_session(h_engine)
+        Fh = T.functions_module(h_engine)
+        for cell in T.cells_for(h_engine):
+            if cell["f"] == function and cell["pos"] == position and cell["sub"] == sub:
+                for n in h_names:
+                    compare_cell(Fh, cell, n)
     T.make_session(engine)
     F = T.functions_module(engine)
     for cell in T.cells_for(engine):
@@ -167,25 +330,238 @@ def first_diff(r: dict) -> dict:
     return r["variants"][0] if r["variants"] else {}
 
 
-def replay_dict(r: dict, model: t.Optional[dict], broken: t.List[str]) -> dict:
+SUB_TEXT = {0: "first element of *cols", 1: "a later element of *cols", 2: "first element of ONE list argument", 3: "a later element of ONE list argument"}
+
+
+def replay_dict(r: dict, model: t.Optional[dict], broken: t.List[str], history: t.Optional[t.List] = None) -> dict:
     v = first_diff(r)
-    return {
+    di = v.get("differs_in") or {}
+    label = "listcol" if ("str_error" not in v and "str" not in di and ("listcol_error" in v or "listcol" in di)) else "str"
+    d = {
         "kind": "a column name passed as a string does not give the expression col(name) gives (or neither form refers to the column)",
         "function": r["f"],
         "engine": r["e"],
         "position": r["pos"],
         "vararg_element": r["sub"],
+        "element": SUB_TEXT.get(r["sub"]),
         "name": r["name"],
         "call": f"sqlframe.{r['e']}.functions.{r['f']}(… position {r['pos']} = {r['name']!r} …)  vs  … = col({r['name']!r})",
         "argument_variant": v.get("variant"),
-        "sql_with_string": v.get("str_sql", v.get("str_error")),
+        "differs_in": (v.get("differs_in") or {}).get(label) or ("the call with the string raises" if f"{label}_error" in v else None),
+        "compared_form": "the name as a string" if label == "str" else "col(name) inside the list argument (PySpark: f([a, b]) is f(a, b))",
+        "sql_with_string": v.get(f"{label}_sql", v.get(f"{label}_error")),
         "sql_with_col": v.get("col_sql"),
+        "result_name_with_string": v.get(f"{label}_name"),
+        "result_name_with_col": v.get("col_name"),
         "col_form_mentions_name_as": v.get("col_form_mentions_name_as"),
         "traced_coercion": model.get("coercion") if model else None,
         "model_predicts_equal": model.get("equal") if model else None,
         "violated_scope_hypotheses": model.get("scope") if model else None,
         "broken": broken,
     }
+    if f"{label}_tree" in v:
+        d["tree_with_string"], d["tree_with_col"] = v[f"{label}_tree"], v.get("col_tree")
+    if history:
+        d["process_history"] = history
+    return d
+
+
+def exec_replay_dict(x: dict, model: t.Optional[dict], broken: t.List[str]) -> dict:
+    label = "str" if ("str_error" in x or "str" in (x.get("differs_in") or {})) else "listcol"
+    return {
+        "kind": "executed on DuckDB: select f(.., 'name', ..) and select f(.., col('name'), ..) differ in output column names or values",
+        "stream": "exec",
+        "function": x["f"],
+        "engine": "duckdb",
+        "position": x["pos"],
+        "vararg_element": x["sub"],
+        "element": SUB_TEXT.get(x["sub"]),
+        "name": x["name"],
+        "argument_variant": x["variant"],
+        "typing": x["typing"],
+        "table": "tools/props/c16_exec.py: Bench.frame(typing[0], typing[1]) read as session.sql('select * from …').alias('tq')",
+        "differs_in": (x.get("differs_in") or {}).get(label) or "the select with the string raises",
+        "columns_with_string": x.get(f"{label}_columns", x.get(f"{label}_error")),
+        "columns_with_col": x.get("col_columns"),
+        "rows_with_string": x.get(f"{label}_rows"),
+        "rows_with_col": x.get("col_rows"),
+        "statement_with_string": x.get(f"{label}_statement"),
+        "statement_with_col": x.get("statement_with_col"),
+        "violated_scope_hypotheses": model.get("scope") if model else None,
+        "broken": broken,
+    }
+
+
+def _symbolic_struct(F: t.Any, session: t.Any, res: t.Any, args: t.List[str]) -> str:
+    """the real result of struct(...) written the way the Lean model writes it, sqlglot's readings kept symbolic"""
+    from sqlglot import exp
+
+    e = res.column_expression
+    if not isinstance(e, exp.Struct) or len(e.expressions) != len(args):
+        return f"?not a struct of {len(args)} fields: {res.sql()}"
+    parts = []
+    for peq, nm in zip(e.expressions, args):
+        if not isinstance(peq, exp.PropertyEQ):
+            return f"?field is {type(peq).__name__}"
+        resolved = F.col(nm)
+        cand_res = exp.parse_identifier(resolved.alias_or_name, dialect=session.input_dialect)
+        cand_raw = exp.parse_identifier(nm, dialect=session.input_dialect)
+        got = peq.this.sql(dialect=session.input_dialect)
+        if got == cand_res.sql(dialect=session.input_dialect):
+            ident = f"identOf(aliasOf(col[{nm}]))"
+        elif got == cand_raw.sql(dialect=session.input_dialect):
+            ident = f"identOf({nm})"
+        else:
+            ident = f"?{got}"
+        value = f"col[{nm}]" if peq.expression == resolved.column_expression and peq.expression.sql() == resolved.column_expression.sql() else f"?{peq.expression.sql()}"
+        parts.append(f"PropertyEQ(Identifier('{ident}'), {value})")
+    return "STRUCT(" + ", ".join(parts) + ")"
+
+
+def exercise_model(ctx: Ctx, outs: t.List[dict]) -> dict:
+    """the hand-written naming / unpacking model (through the driver) and the generated decisions behind it
+    (Gen.structFieldName, Gen.unpackSites, Gen.autoAliasFromResultOnly, Gen.noAutoAlias) against the running code"""
+    import re
+
+    from sqlglot import exp
+
+    stats = {"struct_forms": 0, "site_forms": 0, "aliases": 0}
+    bad: t.List[str] = []
+    if not outs:
+        return stats
+    sites = outs[0]["sites"]
+    alias_info = outs[0]["auto_alias"]
+    for engine in T.ENGINES:
+        session = T.make_session(engine)
+        F = T.functions_module(engine)
+        with warnings.catch_warnings():
+            warnings.simplefilter("ignore")
+            # struct: model vs real tree
+            if hasattr(F, "struct"):
+                for o in outs:
+                    n, m = o["name"], o["struct"]
+                    forms = {
+                        "varargs_str": lambda: F.struct(n, "c"), "list_str": lambda: F.struct([n, "c"]),
+                        "varargs_col": lambda: F.struct(F.col(n), F.col("c")), "list_col": lambda: F.struct([F.col(n), F.col("c")]),
+                    }
+                    for form, call in forms.items():
+                        try:
+                            real = _symbolic_struct(F, session, call(), [n, "c"])
+                        except Exception as e:  # noqa
+                            real = None if type(e).__name__ in ("TypeError", "NameError", "ParseError", "ValueError", "AttributeError") else f"?{type(e).__name__}"
+                        stats["struct_forms"] += 1
+                        if real != m[form]:
+                            bad.append(f"struct on {engine}, {form}, name {n!r}: real {real} / model {m[form]}")
+            # unpacking sites: does the list form / the varargs form work
+            for site in sites:
+                if engine not in site["engines"] or not hasattr(F, site["api"]):
+                    continue
+                f = getattr(F, site["api"])
+                for o in outs[:3]:
+                    n = o["name"]
+                    try:
+                        ref = f(F.col(n), F.col("c")).sql()
+                    except Exception:  # noqa
+                        continue
+                    forms = {"varargs_str": lambda: f(n, "c"), "list_str": lambda: f([n, "c"]), "list_col": lambda: f([F.col(n), F.col("c")])}
+                    for form, call in forms.items():
+                        try:
+                            works = call().sql() == ref
+                        except Exception:  # noqa
+                            works = False
+                        stats["site_forms"] += 1
+                        if works != site[form]:
+                            bad.append(f"unpacking site {site['impl']} ({site['api']} on {engine}), {form}, name {n!r}: real {'gives the varargs-with-col expression' if works else 'raises or differs'} / model {'unpacks' if site[form] else 'raises'}")
+            # the automatic alias: where one is added it is <function>__<first identifier of the RESULT>__, never for the listed functions
+            for cell in T.cells_for(engine):
+                if cell["tgt"] is None or cell["sub"] != 0:
+                    continue
+                for n in ("c", "s.x"):
+                    try:
+                        res = T.call_cell(F, cell, n, "min")
+                    except Exception:  # noqa
+                        continue
+                    from sqlframe.base.column import Column
+
+                    if not isinstance(res, Column):
+                        continue
+                    stats["aliases"] += 1
+                    if isinstance(res.expression, exp.Alias):
+                        inner = res.column_expression
+                        first = inner.find(exp.Identifier)
+                        txt = first.name if first is not None else (inner.find(exp.Literal).this if inner.find(exp.Literal) is not None else "")
+                        want = re.sub(r"\W", "_", f"{cell['f']}__{txt}__")
+                        got = res.expression.args["alias"].name
+                        by_wrapper = got.startswith(cell["f"] + "__")
+                        if cell["f"] in alias_info["not_for"] and by_wrapper:
+                            bad.append(f"automatic alias on {engine}: {cell['f']} is listed in noAutoAlias but its result is named {got!r}")
+                        elif by_wrapper and got != want:
+                            bad.append(f"automatic alias on {engine}: {cell['f']}({n!r}) is named {got!r}, the model (function name + first identifier of the result) says {want!r}")
+    for b in bad[:6]:
+        ctx.broken.append("correspondence (naming / unpacking model vs the running code): " + b)
+    if len(bad) > 6:
+        ctx.broken.append(f"… and {len(bad) - 6} more disagreements of the naming / unpacking model")
+    stats["disagreements"] = len(bad)
+    return stats
+
+
+NAMING_ORACLE = os.path.join(os.path.dirname(HERE), "oracle", "c16_pyspark_naming.json")
+
+
+def check_pyspark_naming(ctx: Ctx, exec_records: t.List[dict]) -> dict:
+    """comparison C (PySpark <-> specification): the specification's field name of struct(<name>) — `identOf(aliasOf(col
+    name))` with the real sqlglot readings — and the field name the executed col(name) form really produces on DuckDB,
+    against what live PySpark 3.5.9 recorded for the same references (tools/oracle/c16_pyspark_naming.json; the
+    thorough tier records again on a live JVM and compares).  Spelling is compared case-insensitively (C10's matter)."""
+    from sqlglot import exp
+
+    stats: dict = {"source": "recorded", "spec_vs_pyspark": 0, "executed_vs_pyspark": 0}
+    oracle = json.load(open(NAMING_ORACLE))
+    if ctx.thorough:
+        import subprocess
+
+        try:
+            p = subprocess.run(
+                ["/venv/bin/python", os.path.join(os.path.dirname(HERE), "oracle", "mk_c16_pyspark_naming.py"), "--check"],
+                capture_output=True, text=True, timeout=600, env=dict(os.environ, PYSPARK_PYTHON="/venv/bin/python"),
+            )
+            if p.returncode == 0 and "same" in p.stdout:
+                stats["source"] = "recorded, and recorded again on a live JVM in this run: same"
+            elif "DIFFERENT" in p.stdout:
+                ctx.broken.append("oracle: live PySpark no longer gives the recorded naming expectations (tools/oracle/c16_pyspark_naming.json)")
+            else:
+                stats["source"] = "recorded (the JVM did not start in this run)"
+        except Exception as e:  # noqa
+            stats["source"] = f"recorded (the JVM did not start in this run: {type(e).__name__})"
+    bad = [k for k, v in oracle["refs"].items() if not (v["struct_forms_agree"] and v["array_forms_agree"] and v["array_result_name_agrees"] and v["create_map_forms_agree"])]
+    m = oracle["map_concat_list_form"]
+    if bad or not (m["list_str"] == m["varargs_str"] == m["list_col"]):
+        ctx.broken.append(f"oracle: PySpark itself does not treat the forms alike for {bad} / map_concat — the specification is wrong")
+    session = T.make_session("duckdb")
+    F = T.functions_module("duckdb")
+    for ref, v in oracle["refs"].items():
+        want = [x.casefold() for x in v["struct_single_field"]]
+        spec = exp.parse_identifier(F.col(ref).alias_or_name, dialect=session.input_dialect).name
+        stats["spec_vs_pyspark"] += 1
+        if [spec.casefold()] != want:
+            ctx.broken.append(f"specification vs PySpark: struct({ref!r}) names its field {want} in PySpark 3.5.9, the specification (identifier of the reference's last part) says {spec!r}")
+    for x in exec_records:
+        if x["f"] == "struct" and x["sub"] == 0 and x["variant"] == "min" and "col_rows" in x and x["name"] in oracle["refs"]:
+            try:
+                first = json.loads(x["col_rows"])[0]["Row"][0][1]["Row"]
+                got = [kv[0].casefold() for kv in first]
+            except Exception:  # noqa
+                continue
+            stats["executed_vs_pyspark"] += 1
+            want = [y.casefold() for y in oracle["refs"][x["name"]]["struct_single_field"]]
+            if got != want:
+                ctx.broken.append(f"executed col(name) form vs PySpark: struct(col({x['name']!r})) on DuckDB has fields {got}, PySpark 3.5.9 {want}")
+    return stats
+
+
+def exec_refs_for(ctx: Ctx) -> t.List[str]:
+    refs = [u[1] for u in X.UNUSUAL]
+    return refs if ctx.thorough else refs[:6]
 
 
 def run(ctx: Ctx) -> None:
@@ -194,17 +570,25 @@ def run(ctx: Ctx) -> None:
     known = local_known()
     names = names_for(ctx)
     positions = json.load(open(T.ORACLE))
+    exec_refs = exec_refs_for(ctx)
 
-    # (A) the direct comparison on the unpatched code, every engine in its own process
-    rows = direct_comparison(names)
-    log(f"C16: direct comparison: {len(rows)} (cell, name) pairs, {ctx.elapsed():.1f}s")
+    # (A) the direct comparison (text, result name, tree) for every engine, (B) the tracer (the dynamic translator),
+    # (C) the executed comparison on DuckDB - all on the unpatched code, every job in a process of its own
+    jobs = plan_jobs(names, exec_refs, 4, ctx.thorough)
+    rows, traced_rows, execs, errors = run_jobs(jobs)
+    for e in errors:
+        ctx.broken.append(f"a worker of the correspondence stream failed: {e[:600]}")
+    history_of = {i: job[1] for i, job in enumerate(jobs) if job[0] == "cmp"}
+    second_segment_history = {seg[1][0]: [list(seg[0])] for seg in history_of.values()}
+    log(f"C16: direct comparison: {len(rows)} (cell, name) pairs, traced {len(traced_rows)}, executed {sum(len(x['records']) for x in execs)}, {ctx.elapsed():.1f}s")
 
-    # (Gen) dynamic translator: trace the real functions, write Gen/Functions.lean
-    # the tracer itself (seconds of pure Python) runs OUTSIDE the Lean lock; only the atomic replacement of
-    # Gen/Functions.lean is done under it (vlib.prove takes the lock itself for translate + lake build)
+    # (Gen) write Gen/Functions.lean from this run's trace; only the atomic replacement of the file is done under the
+    # Lean lock (vlib.prove takes the lock itself for translate + lake build)
     traced: t.List[dict] = []
     try:
-        text, traced = T.generate(vlib.REPO, None)
+        if len({r["e"] for r in traced_rows}) != len(T.ENGINES):
+            raise RuntimeError("not every engine was traced")
+        text, traced = T.generate(vlib.REPO, None, traced_rows=traced_rows)
         path = os.path.join(vlib.GEN_DIR, "Functions.lean")
         with vlib.lean_lock():
             os.makedirs(vlib.GEN_DIR, exist_ok=True)
@@ -225,6 +609,7 @@ def run(ctx: Ctx) -> None:
     # the model's prediction for the same cells and names
     model: t.Dict[t.Tuple, dict] = {}
     origin = None
+    outs: t.List[dict] = []
     try:
         outs = vlib.run_driver(ID, [{"case": i, "name": n} for i, n in enumerate(names)])
         for o in outs:
@@ -238,6 +623,13 @@ def run(ctx: Ctx) -> None:
     if origin is not None and origin != "traced":
         ctx.broken.append(f"Gen.Functions.cells is not this run's trace (origin={origin})")
 
+    # the naming / unpacking model and the generated decisions behind it, exercised against the running code
+    model_stats: dict = {}
+    try:
+        model_stats = exercise_model(ctx, outs if model else [])
+    except Exception as e:  # noqa
+        ctx.broken.append(f"exercising the naming / unpacking model failed: {type(e).__name__}: {str(e)[:300]}")
+
     traced_keys = {(r["f"], r["e"], r["pos"], r["sub"]) for r in traced}
     model_keys = {k[:4] for k in model}
     if model and traced_keys != model_keys:
@@ -249,18 +641,28 @@ def run(ctx: Ctx) -> None:
     unusable = []
     n_eval = 0
     nontrivial = set()
+    variant_hist: t.Counter = collections.Counter()
+    text_hidden = 0
     for r in rows:
         key = (r["f"], r["e"], r["pos"], r["sub"], r["name"])
         if r["usable"] == 0 and r["variants"] and all("skipped" in v for v in r["variants"]):
             unusable.append(r)
             continue
         n_eval += sum(1 for v in r["variants"] if "skipped" not in v)
+        for v in r["variants"]:
+            if "skipped" not in v:
+                variant_hist[v["variant"].split(":")[0]] += 1
         m = model.get(key)
         v0 = next((v for v in r["variants"] if "col_sql" in v), None)
-        if v0 and r["name"].split("-")[0].split(" ")[0].lower() in v0["col_sql"].lower():
+        if v0 and r["name"].strip("`").split("-")[0].split(" ")[0].split(".")[-1].strip("`").lower() in v0["col_sql"].lower():
             nontrivial.add(key)
         if m is not None and m["equal"] != r["equal"]:
-            mismatch_model.append((r, m))
+            if m["coercion"] == "text" and r["equal"] and not m["equal"]:
+                # a parameter read as a time FORMAT: the model's two string literals differ (C16_text_literal), but the
+                # session's format translation, applied afterwards, is not injective (`hY` and `hy` both become `%I%Y`)
+                text_hidden += 1
+            else:
+                mismatch_model.append((r, m))
         if not r["equal"]:
             failing.append((r, m))
     if mismatch_model:
@@ -278,6 +680,35 @@ def run(ctx: Ctx) -> None:
                 known_cells[h].add((r["f"], r["e"], r["pos"]))
         else:
             new_viol.append((r, m))
+
+    # the executed comparison
+    exec_records = [x for res in execs for x in res["records"]]
+    exec_failing = []
+    exec_ok = 0
+    exec_cells = set()
+    for x in exec_records:
+        if "skipped" in x:
+            continue
+        exec_cells.add((x["f"], x["pos"], x["sub"]))
+        if x.get("equal"):
+            exec_ok += 1
+            continue
+        m = model.get((x["f"], "duckdb", x["pos"], x["sub"], names[0]))
+        if m is not None and m["scope"] and all(h in known for h in m["scope"]):
+            for h in m["scope"]:
+                known_cells[h].add((x["f"], "duckdb", x["pos"]))
+        else:
+            exec_failing.append((x, m))
+    typing_found: t.Dict[str, t.Any] = {}
+    for res in execs:
+        typing_found.update(res["typing"])
+
+    naming_stats: dict = {}
+    try:
+        naming_stats = check_pyspark_naming(ctx, exec_records)
+    except Exception as e:  # noqa
+        ctx.broken.append(f"the PySpark naming oracle could not be applied: {type(e).__name__}: {str(e)[:300]}")
+
     for h in sorted(known_cells):
         vlib.report_known(ctx, known[h], f"{known[h]['summary']} [{len(known_cells[h])} cells fail in this run]")
 
@@ -295,9 +726,17 @@ def run(ctx: Ctx) -> None:
         by_cell[(r["f"], r["e"], r["pos"], r["sub"])].append((r, m))
     reported = 0
     for cell_key in sorted(by_cell)[:5]:
-        cands = sorted(by_cell[cell_key], key=lambda rm: (names.index(rm[0]["name"])))
+        cands = sorted(by_cell[cell_key], key=lambda rm: (rm[0].get("segment", 0), names.index(rm[0]["name"])))
         r, m = cands[0]
-        vlib.report_violation(ctx, replay_dict(r, m, ctx.broken))
+        history = second_segment_history.get(r["e"]) if r.get("segment") == 1 else None
+        vlib.report_violation(ctx, replay_dict(r, m, ctx.broken, history))
+        reported += 1
+    exec_by_cell: t.Dict[t.Tuple, t.List] = collections.defaultdict(list)
+    for x, m in exec_failing:
+        exec_by_cell[(x["f"], x["pos"], x["sub"])].append((x, m))
+    for cell_key in sorted(exec_by_cell)[:3]:
+        x, m = sorted(exec_by_cell[cell_key], key=lambda xm: (exec_refs.index(xm[0]["name"]), xm[0]["variant"]))[0]
+        vlib.report_violation(ctx, exec_replay_dict(x, m, ctx.broken))
         reported += 1
     if ctx.broken and not reported:
         vlib.report_violation(
@@ -305,7 +744,7 @@ def run(ctx: Ctx) -> None:
             {
                 "kind": "proof obligation or correspondence no longer checks; no failing input found",
                 "broken": ctx.broken,
-                "searched": {"cells": len(traced_keys), "names": names, "pairs": len(rows)},
+                "searched": {"cells": len(traced_keys), "names": names, "pairs": len(rows), "executed": len(exec_records)},
             },
             no_input=True,
         )
@@ -317,26 +756,48 @@ def run(ctx: Ctx) -> None:
     samples = []
     for r in rows[:: max(1, len(rows) // 5)][:5]:
         v = next((v for v in r["variants"] if "col_sql" in v), {})
-        samples.append({"function": r["f"], "engine": r["e"], "position": r["pos"], "name": r["name"], "sql_with_string": v.get("str_sql", v.get("str_error")), "sql_with_col": v.get("col_sql"), "equal": r["equal"], "meets": r["meets"]})
+        samples.append({"function": r["f"], "engine": r["e"], "position": r["pos"], "element": r["sub"], "name": r["name"], "variant": v.get("variant"), "sql_with_string": v.get("str_sql", v.get("str_error")), "sql_with_col": v.get("col_sql"), "result_name": v.get("col_name"), "equal": r["equal"], "meets": r["meets"]})
     for r, m in failing[:2]:
         v = first_diff(r)
-        samples.append({"function": r["f"], "engine": r["e"], "position": r["pos"], "name": r["name"], "sql_with_string": v.get("str_sql", v.get("str_error")), "sql_with_col": v.get("col_sql"), "equal": False, "scope": m["scope"] if m else None})
+        samples.append({"function": r["f"], "engine": r["e"], "position": r["pos"], "element": r["sub"], "name": r["name"], "variant": v.get("variant"), "sql_with_string": v.get("str_sql", v.get("str_error")), "sql_with_col": v.get("col_sql"), "equal": False, "scope": m["scope"] if m else None})
+    exec_samples = [{k: x.get(k) for k in ("f", "pos", "sub", "variant", "name", "typing", "col_columns", "col_rows", "equal")} for x in [y for y in exec_records if "skipped" not in y][:: max(1, len(exec_records) // 4)][:4]]
     ctx.cov.update(
         {
-            "evaluations": n_eval,
+            "evaluations": n_eval + 2 * (exec_ok + len(exec_failing)),
             "distinct_nontrivial": len(nontrivial),
-            "rule": "every (function, engine, PySpark ColumnOrName position[, first/later element of *cols]) cell of every engine module x the names below x two argument variants (required arguments only / every parameter), typed dummy values elsewhere; "
-            "non-trivial = distinct (cell, name) whose col(name) form is callable and whose SQL text mentions the name",
+            "rule": "every (function, engine, PySpark ColumnOrName position[, first/later element of *cols, also inside ONE list argument where PySpark documents the list form]) cell of every engine module x the names below x the argument variants "
+            "(required arguments only / every parameter; for the first three names also: every other ColumnOrName argument by name / as a Column / as a Python number where PySpark documents it, each optional parameter left out), typed dummy values elsewhere; "
+            "compared: SQL text, the result's name (alias_or_name), the whole tree incl. quoting flags and display names; "
+            "non-trivial = distinct (cell, name) whose col(name) form is callable and whose SQL text mentions the name's last part",
             "exhaustive": True,
             "names": names,
+            "names_run_with_every_argument_variant": ALL_VARIANT_NAMES,
+            "variant_histogram": dict(variant_hist),
             "cells": len(traced_keys),
+            "list_form_cells": sum(1 for k in traced_keys if k[3] >= 2),
             "in_scope_cells": in_scope,
             "cells_per_engine": dict(per_engine),
             "coercion_histogram": dict(hist),
             "pairs_compared": len(rows) - len(unusable),
             "pairs_failing": len(failing),
             "pairs_failing_listed": len(failing) - len(new_viol),
+            "naming_and_unpacking_model_vs_code": model_stats,
+            "pyspark_naming_oracle": naming_stats,
+            "second_segments": "each engine's second half of the names (and the first name again) runs in a process that made the same calls under another engine before",
             "traces_validated_against_impl": len(rows) - len(unusable) - len(mismatch_model),
+            "format_cells_where_translation_hides_the_difference": text_hidden,
+            "executed_on_duckdb": {
+                "references": exec_refs,
+                "what_is_unusual": {u[1]: u[2] for u in X.UNUSUAL if u[1] in exec_refs},
+                "cells_executed": len(exec_cells),
+                "cell_variants_with_a_typing": sum(1 for v in typing_found.values() if v != "none"),
+                "cell_variants_without": sorted(k for k, v in typing_found.items() if v == "none"),
+                "records_equal": exec_ok,
+                "records_failing": len(exec_failing),
+                "records_skipped_column_form_does_not_run": sum(1 for x in exec_records if "skipped" in x),
+                "compared": "df.columns, nested Row field names, all row values (bag of 3 rows incl. a NULL row)",
+                "samples": exec_samples,
+            },
             "pyspark_positions": {
                 "source": positions["source"],
                 "pyspark_version": positions["pyspark_version"],
@@ -351,10 +812,11 @@ def run(ctx: Ctx) -> None:
         }
     )
     ctx.assumptions += [
-        "PySpark's ColumnOrName positions are those whose annotation in pyspark/sql/functions.py (3.5.9) mentions ColumnOrName and for which a live JVM built an UnresolvedAttribute from a string (recorded once in tools/oracle/pyspark_colname_positions.json)",
-        "sqlglot's parser is abstract in the theorems (`parse`); the driver's stand-in (identifier-like text = a column reference) is validated by the direct comparison on every `parsed` cell",
+        "PySpark's ColumnOrName positions are those whose annotation in pyspark/sql/functions.py (3.5.9) mentions ColumnOrName and for which a live JVM built an UnresolvedAttribute from a string (recorded once in tools/oracle/pyspark_colname_positions.json); the list form f([a, b]) is claimed where that annotation names List[...]",
+        "sqlglot's parser is abstract in the theorems (`parse`, `aliasOf`, `identOf`); the driver's stand-in (identifier-like text = a column reference) is validated by the direct comparison on every `parsed` / `text` cell",
         "engine sessions are the real session classes over stub driver modules and a fake DB-API connection; function bodies only read the session's dialects and `_is_<engine>` flags",
-        "other arguments are typed dummy values (two variants); a cell whose col(name) form cannot be called with them is listed under unevaluable_cells and not claimed",
+        "other arguments are typed dummy values (argument variants as listed); a cell whose col(name) form cannot be called with them is listed under unevaluable_cells and not claimed",
+        "executed comparison: only cells for which some typing of the table makes the Column form run (found by search, hints in tools/oracle/c16_exec_typing.json) are executed; the others are covered by the text/name/tree comparison only",
     ]
 
 
@@ -363,10 +825,18 @@ def replay(ctx: Ctx, rp: dict) -> None:
     if "function" not in rp:
         print("replay names a broken obligation, not an input:", rp.get("broken"))
         return
-    r = one_cell(rp["function"], rp["engine"], rp["position"], rp.get("vararg_element", 0), rp["name"])
+    if rp.get("stream") == "exec":
+        x = X.one(rp["function"], rp["position"], rp.get("vararg_element", 0), rp["argument_variant"], rp["name"], rp["typing"])
+        print(json.dumps(x, indent=1))
+        if x is None:
+            print("the cell no longer exists")
+        elif x.get("equal") is False:
+            vlib.report_violation(ctx, dict(rp, **{k: v for k, v in exec_replay_dict(x, None, []).items() if k.startswith(("columns_", "rows_"))}))
+        return
+    r = one_cell(rp["function"], rp["engine"], rp["position"], rp.get("vararg_element", 0), rp["name"], rp.get("process_history"))
     print(json.dumps(r, indent=1))
     if r is None:
         print("the cell no longer exists")
         return
     if not r["equal"]:
-        vlib.report_violation(ctx, dict(rp, **{k: v for k, v in replay_dict(r, None, []).items() if k.startswith("sql_")}))
+        vlib.report_violation(ctx, dict(rp, **{k: v for k, v in replay_dict(r, None, []).items() if k.startswith(("sql_", "result_name_"))}))
